@@ -1,5 +1,6 @@
 import Momo.Proof.ObjMain
 import Momo.Proof.ArrFaultDone
+import Momo.Proof.ArrSegFaultOps
 import Momo.Proof.BTreeFaultCopy
 /-!
 # C04 — Strongly exception-safe operations leave the container unchanged on failure
@@ -346,3 +347,66 @@ example : (copyF (x4Fail 1 6) x4Ic x4Cfg x4Ft x4W).1 = true ∧ (copyF (x4Fail 1
   decide +kernel
 
 end Momo.BTreeF
+
+/-!
+## `momo::SegmentedArray` under every fault schedule (model `Momo/Model/ArrSegFault.lean`)
+
+`AddBackCrt / AddBack`, `SetCount(count, item)` (`pvIncCount / pvDecCount`), `Reserve` (`pvIncCapacity / pvDecCapacity`),
+`Shrink` as written in SegmentedArray.h; the segment-pointer array `mSegments` is the `Array<Item*>` of the model above
+(its `Reserve` / `Shrink` run through `Momo.ArrF.reserveF / shrinkF`), segments are never reallocated.
+`SValid cfg k x`: `mSegments` satisfies the `Array` invariant, `mCount` is within the capacity of the allocated segments,
+the outstanding item segments are exactly the segments `0 .. segCount)` (as a multiset of sizes), the outstanding blocks
+of the pointer array exactly the block `mSegments` owns, as many item objects exist as the array has items (+ `k`),
+nothing was deallocated or destroyed twice.  Both sizings (`cnst`, `sqrt`) and every `logInitialItemCount` (the sizing
+laws are those proved for C16).
+-/
+namespace Momo.ArrF.Seg
+open Momo.Arr Momo.Arr.Seg Momo.ArrF
+variable {α : Type}
+
+/-- **C04, SegmentedArray.** `AddBack` / `AddBackVar` (lvalue or rvalue argument, also an element of the same array),
+`SetCount(count, item)`, `Reserve`: under EVERY fault schedule the call either completes with the state of the fault-free
+model `Momo.Arr.Seg` (valid, ledger exact) or throws with the items - contents, order, count - and the segments exactly
+as before, in a valid state with exact ledger (the only thing that may differ is the capacity of the pointer array,
+which `mSegments.Reserve` may have enlarged before the segment allocation failed: owned, not leaked, not observable
+through `GetCapacity()`). -/
+theorem C04_segarray_strong_every_fault (cfg : SCfg) (thr : Thr) (k : Nat) (op : SOp α) (hop : op.strong = true)
+    (hns : ∀ n, op ≠ .shrink n) (x : SSys α) (v : SValid cfg k x) :
+    SPost (stepS cfg thr op) x
+      (fun _ y => y.st = (pureStepS cfg x.st op).1 ∧ SValid cfg k y)
+      (fun y => y.cells = x.cells ∧ y.segs.cells = x.segs.cells ∧ SValid cfg k y) :=
+  strong_stepS cfg thr k op hop hns x v
+
+/-- **C04, `SegmentedArray::Shrink` is `noexcept`**: under every fault schedule it completes (a failure of
+`mSegments.Shrink()` is swallowed), the items are untouched and the array is valid with an exact ledger. -/
+theorem C04_segarray_shrink_never_throws (cfg : SCfg) (k : Nat) (n : Nat) (x : SSys α) (v : SValid cfg k x) :
+    SPost (shrinkOpF cfg n) x (fun _ y => y.cells = x.cells ∧ SValid cfg k y) (fun _ => False) :=
+  shrinkOpF_spec cfg k n x v
+
+/-! Non-vacuity: constant sizing with segments of 2 items, 3 items in 2 segments, pointer array of capacity 4. -/
+def exCfgS : SCfg := { lay := { sqrt := false, L := 1 } }
+def exSysS (faults : List Bool) : SSys Nat :=
+  { cells := [.live 10, .live 11, .live 12], segs := { cells := [.live 0, .live 1], cap := 4 }, faults := faults,
+    sblocks := [2, 2], pblocks := [4], objs := 3 }
+def outcomeS {β : Type} (r : Res β × SSys Nat) : Bool × Cells Nat × Nat × List Nat × List Nat × Nat × Bool :=
+  (match r.1 with | .ok _ => true | .threw => false, r.2.cells, r.2.segs.cells.length, r.2.sblocks, r.2.pblocks, r.2.objs, r.2.bad)
+
+example : SValid exCfgS 0 (exSysS []) := by
+  refine ⟨⟨⟨by decide, ?_, ?_, ?_⟩, ?_, by decide, rfl⟩, by decide, by decide⟩
+  · intro _ _; decide
+  · intro h; simp [exSysS] at h
+  · intro _ h; simp [exSysS] at h
+  · show List.Perm [2, 2] (segSizes exCfgS 2)
+    have : segSizes exCfgS 2 = [2, 2] := by decide
+    rw [this]
+/-- `SetCount(7, array[0])`: two more segments are needed; the second segment allocation is refused: the first new
+    segment is returned, nothing else changes -/
+example : outcomeS ((stepS exCfgS {} (.setCount 7 (.elem 0))).run (exSysS [false, true]))
+    = (false, [.live 10, .live 11, .live 12], 2, [2, 2], [4], 3, false) := by decide
+/-- the third new item's copy constructor throws: the two items built are destroyed, both new segments returned -/
+example : outcomeS ((stepS exCfgS {} (.setCount 7 (.elem 0))).run (exSysS [false, false, false, false, true]))
+    = (false, [.live 10, .live 11, .live 12], 2, [2, 2], [4], 3, false) := by decide
+example : outcomeS ((stepS exCfgS {} (.setCount 7 (.elem 0))).run (exSysS []))
+    = (true, [.live 10, .live 11, .live 12, .live 10, .live 10, .live 10, .live 10], 4, [2, 2, 2, 2], [4], 7, false) := by decide
+
+end Momo.ArrF.Seg
